@@ -69,6 +69,7 @@ func vSymState(b vBounds) *vEnv {
 		e.amevH = -1
 	}
 
+	vSymTsInc(e)
 	// --- context scalars
 	d.cache = newCache[vhash]()
 	d.BlockIndex = e.height + 1
@@ -280,4 +281,22 @@ func vTxList(d *DBFT[vhash]) []Transaction[vhash] {
 		txx[i] = d.Transactions[h]
 	}
 	return txx
+}
+
+// vSymTsInc: parameter tsinc: 0 = the default increment (10^6 ns), 1 = any increment in
+// [1, 2^40], 2 = any power of two up to 2^40.
+func vSymTsInc(e *vEnv) {
+	d := e.d
+	switch vParam("tsinc") {
+	case 1:
+		inc := vU64("tsinc")
+		vAssume(inc >= 1 && inc <= 1<<40)
+		d.Config.TimestampIncrement, d.Context.Config.TimestampIncrement = inc, inc
+	case 2:
+		k := vU8("tsinc.log2")
+		vAssume(k <= 40)
+		inc := uint64(1) << k
+		d.Config.TimestampIncrement, d.Context.Config.TimestampIncrement = inc, inc
+	}
+	e.tsInc = d.Context.Config.TimestampIncrement
 }
